@@ -256,7 +256,7 @@ def _build_opm(c):
     _maneuvers(sv, MAN_SPECS[c.integer("man")], k)
     ud = c.integer("ud")
     if ud:
-        sv._data["ccsds_user_defined"] = {"FOO": "bar"} if ud == 1 else {"FOO": "bar", "MASS": "1250.5"}
+        sv._data["ccsds_user_defined"] = {"FOO": "bar"} if ud == 1 else {"EARTH_MODEL": "WGS-84", "EARTH_RADIUS": "6378.137", "MASS": "1250.5", "A_B_C": "x y"}
     return sv, kw
 
 
@@ -306,7 +306,7 @@ def _(c):
     _attach_cov(orb, {0: 0, 1: 1, 2: 2, 3: 3}[cov], k)
     ud = c.integer("ud")
     if ud:
-        orb._data["ccsds_user_defined"] = {"FOO": "bar"} if ud == 1 else {"FOO": "bar", "MASS": "1250.5"}
+        orb._data["ccsds_user_defined"] = {"FOO": "bar"} if ud == 1 else {"EARTH_MODEL": "WGS-84", "EARTH_RADIUS": "6378.137", "MASS": "1250.5", "A_B_C": "x y"}
 
     def compare(cmp, a, b):
         cmp.check("epoch", _same_date(a.date, b.date), f"{a.date!r} {b.date!r}")
